@@ -211,6 +211,19 @@ async def agcmu(k):
         yield k
 
 
+@contextmanager
+def gcmu1(k, sub):
+    """an unwrapped wrapper around an arbitrary manager: what is discarded with it may itself have stacks below it"""
+    with sub:
+        yield k
+
+
+@asynccontextmanager
+async def agcmu1(k, sub):
+    async with sub:
+        yield k
+
+
 def _unwrapping_hook(frame, ctx):
     tick("unwrap_context_generator")
     return frame.contexts[0].obj if frame.contexts else None
@@ -218,6 +231,8 @@ def _unwrapping_hook(frame, ctx):
 
 unwrap_context_generator.register(gcmu, _unwrapping_hook)
 unwrap_context_generator.register(agcmu, _unwrapping_hook)
+unwrap_context_generator.register(gcmu1, _unwrapping_hook)
+unwrap_context_generator.register(agcmu1, _unwrapping_hook)
 
 
 for _g in (gcm0, gcm1, agcm0, agcm1, agcm_x):
@@ -285,6 +300,8 @@ def make_mgr(spec, is_async):
         return agcmu(spec[1]) if is_async else gcmu(spec[1])
     if t == "gcm1":
         return agcm1(spec[1], make_mgr(spec[2], True)) if is_async else gcm1(spec[1], make_mgr(spec[2], False))
+    if t == "gcmu1":
+        return agcmu1(spec[1], make_mgr(spec[2], True)) if is_async else gcmu1(spec[1], make_mgr(spec[2], False))
     if t == "stack":
         return AsyncExitStack() if is_async else ExitStack()
     if t == "gcmx":
